@@ -105,7 +105,7 @@ theorem W3.ureadUnlock {s : Sys} (h : W3 s) : W3 s.ureadUnlock := h.readUnlock.u
 theorem W3.writeUnlock {s : Sys} (h : W3 s) : W3 s.writeUnlock :=
   (W3.notifyNw (s := { s with state := s.state - s.state % 2 }) h).unlockM
 
-/-- woken-membership through the helpers that only add owners of *other* entries: `f` stays out if
+/-- woken-membership through the helpers that only add ownerIds of *other* entries: `f` stays out if
 it owns no entry in the notified queue -/
 theorem not_mem_notifyOwners {q : List Entry} {f : Nat} (add : Bool) (n : Nat)
     (h : Ev.has q f = false) : f ∉ Ev.notifyOwners add n q := by
@@ -368,7 +368,7 @@ theorem run_w3 (s : Sys) (ops : List Op) (hi : WordInv s) (hr : RegInv s) (h : W
     exact ih _ (step_word s op hi) (by simpa [run] using this.2) (step_w3 s op hi hr h)
 
 theorem reachable_w3 (ops : List Op) : W3 (run {} ops) :=
-  run_w3 _ ops init_word init_reg ⟨by simp [ALock.owners], by simp, by simp⟩
+  run_w3 _ ops init_word init_reg ⟨by simp [ALock.ownerIds], by simp, by simp⟩
 
 /-- every listener (on any of the three events) belongs to a pending polled future -/
 theorem listener_pending (ops : List Op) (g : Nat)
@@ -414,7 +414,7 @@ theorem listeners_le (ops : List Op) :
       ≤ (pendingPolled (run {} ops)).length := by
   have hc := reachable_w3 ops
   have := nodup_subset_length
-    (ALock.owners ((run {} ops).m.q ++ ((run {} ops).nr ++ (run {} ops).nw)))
+    (ALock.ownerIds ((run {} ops).m.q ++ ((run {} ops).nr ++ (run {} ops).nw)))
     ((pendingPolled (run {} ops)).map (·.id)) hc.nq (by
     intro g hg
     have hh : Ev.has ((run {} ops).m.q ++ ((run {} ops).nr ++ (run {} ops).nw)) g = true := by
@@ -422,7 +422,7 @@ theorem listeners_le (ops : List Op) :
       simp only [Ev.has, List.any_eq_true, beq_iff_eq]; exact ⟨e, he, heo⟩
     obtain ⟨fu, hfu, hid⟩ := listener_pending ops g hh
     exact List.mem_map.mpr ⟨fu, hfu, hid⟩)
-  simpa [ALock.owners] using this
+  simpa [ALock.ownerIds] using this
 
 /-- **outstanding wake-ups never outnumber the pending futures** -/
 theorem woken_le (ops : List Op) :
